@@ -9,6 +9,7 @@ import (
 
 	"rscheck/cfgq"
 	"rscheck/core"
+	"rscheck/rules/c01"
 )
 
 // ---------------------------------------------------------------------------
@@ -130,53 +131,79 @@ func trailer(e *env, fn, ctor *core.Fn) ast.Expr {
 		return true
 	})
 	if sink == nil || dig == nil {
+		if v, done := trailerByLayout(e, fn, key); done {
+			return v
+		}
 		c.Undecidedf("R5.trailer", key("tee-digest"), fn.Decl.Pos(), "cannot see %s writing through io.MultiWriter(out, digest) with a digest from a checked constructor", name)
 		return nil
 	}
 	c.Okf("R5.trailer", key("tee-digest"), fn.Decl.Pos(), "%s writes through a MultiWriter that feeds %s, a digest from a constructor checked under R2", name, dig.Name())
-	g := cfgq.Of(c.Program, fn)
-	// classify writes
+	// classify writes (of function wf, through its sink wsink into its digest wdig)
 	type wr struct {
 		call  *ast.CallExpr
 		kind  string // version checksum data
 		order string
 		val   ast.Expr
+		sumAt ast.Node // where Sum64/Sum is evaluated (the write itself or an earlier assignment)
 	}
-	classify := func(call *ast.CallExpr) *wr {
-		f := core.CalleeFunc(info, call)
-		if f == nil {
+	mkClassify := func(wf *core.Fn, wsink, wdig types.Object) func(*ast.CallExpr) *wr {
+		digestCall := func(e ast.Expr, method string) *ast.CallExpr {
+			e = origin(info, wf.Decl.Body, e)
+			if sc, ok := ast.Unparen(e).(*ast.CallExpr); ok && core.CalleeFunc(info, sc) != nil && core.CalleeFunc(info, sc).Name() == method {
+				if sel, ok := ast.Unparen(sc.Fun).(*ast.SelectorExpr); ok && ref(sel.X) == wdig {
+					return sc
+				}
+			}
 			return nil
 		}
-		if core.IsFunc(f, "encoding/binary", "", "Write") && len(call.Args) == 3 && ref(call.Args[0]) == sink {
-			w := &wr{call: call, kind: "data", val: call.Args[2]}
-			if o := core.ObjOf(info, call.Args[1]); o != nil {
-				w.order = o.Name()
+		return func(call *ast.CallExpr) *wr {
+			f := core.CalleeFunc(info, call)
+			if f == nil {
+				return nil
 			}
-			if sc, ok := ast.Unparen(call.Args[2]).(*ast.CallExpr); ok && core.CalleeFunc(info, sc) != nil && core.CalleeFunc(info, sc).Name() == "Sum64" {
-				if sel, ok := ast.Unparen(sc.Fun).(*ast.SelectorExpr); ok && ref(sel.X) == dig {
-					w.kind = "checksum"
+			if core.IsFunc(f, "encoding/binary", "", "Write") && len(call.Args) == 3 && ref(call.Args[0]) == wsink {
+				w := &wr{call: call, kind: "data", val: call.Args[2]}
+				if o := core.ObjOf(info, call.Args[1]); o != nil {
+					w.order = o.Name()
+				}
+				if sc := digestCall(call.Args[2], "Sum64"); sc != nil {
+					w.kind, w.sumAt = "checksum", sc
 					return w
 				}
+				if width(info, call.Args[2]) == 16 {
+					w.kind = "version"
+					if o := objOf(info, call.Args[2]); o != nil { // version := uint16(V)
+						w.val = origin(info, wf.Decl.Body, call.Args[2])
+					}
+				}
+				return w
 			}
-			if width(info, call.Args[2]) == 16 {
-				w.kind = "version"
+			if sel, ok := ast.Unparen(call.Fun).(*ast.SelectorExpr); ok && f.Name() == "Write" && ref(sel.X) == wsink && len(call.Args) == 1 {
+				w := &wr{call: call, kind: "data", order: "LittleEndian"}
+				if sc := digestCall(call.Args[0], "Sum"); sc != nil {
+					w.kind, w.sumAt = "checksum", sc // little-endian by R2.state/Sum-little-endian
+				}
+				return w
 			}
-			return w
+			return nil
 		}
-		if sel, ok := ast.Unparen(call.Fun).(*ast.SelectorExpr); ok && f.Name() == "Write" && ref(sel.X) == sink && len(call.Args) == 1 {
-			w := &wr{call: call, kind: "data", order: "LittleEndian"}
-			if sc, ok := ast.Unparen(call.Args[0]).(*ast.CallExpr); ok && core.CalleeFunc(info, sc) != nil && core.CalleeFunc(info, sc).Name() == "Sum" {
-				if s2, ok := ast.Unparen(sc.Fun).(*ast.SelectorExpr); ok && ref(s2.X) == dig {
-					w.kind = "checksum" // little-endian by R2.state/Sum-little-endian
+	}
+	count := func(wf *core.Fn, classify func(*ast.CallExpr) *wr) (ver, sum *wr, nver, nsum int) {
+		core.Inspect(wf.Decl.Body, func(n ast.Node) bool {
+			if call, ok := n.(*ast.CallExpr); ok {
+				if w := classify(call); w != nil && w.kind == "version" {
+					ver = w
+					nver++
+				} else if w != nil && w.kind == "checksum" {
+					sum = w
+					nsum++
 				}
 			}
-			return w
-		}
-		return nil
+			return true
+		})
+		return
 	}
-	var ver, sum *wr
-	nver, nsum := 0, 0
-	isKind := func(kinds ...string) func(ast.Node) bool {
+	isKindOf := func(classify func(*ast.CallExpr) *wr, kinds ...string) func(ast.Node) bool {
 		return func(n ast.Node) bool {
 			for _, call := range cfgq.ExecCalls(n) {
 				if w := classify(call); w != nil {
@@ -190,18 +217,39 @@ func trailer(e *env, fn, ctor *core.Fn) ast.Expr {
 			return false
 		}
 	}
-	core.Inspect(fn.Decl.Body, func(n ast.Node) bool {
-		if call, ok := n.(*ast.CallExpr); ok {
-			if w := classify(call); w != nil && w.kind == "version" {
-				ver = w
-				nver++
-			} else if w != nil && w.kind == "checksum" {
-				sum = w
-				nsum++
+	classifyFn := mkClassify(fn, sink, dig)
+	classify := classifyFn
+	wf := fn
+	ver, sum, nver, nsum := count(fn, classify)
+	var handOff *ast.CallExpr // the call that hands sink and digest to a helper writing the trailer
+	if nver == 0 && nsum == 0 {
+		for _, call := range core.Calls(fn.Decl.Body, info, func(call *ast.CallExpr, o types.Object) bool {
+			f, _ := o.(*types.Func)
+			return f != nil && f.Pkg() == fn.Obj.Pkg() && f.Type().(*types.Signature).Recv() == nil
+		}) {
+			si, di := -1, -1
+			for i, a := range call.Args {
+				if ref(a) == sink {
+					si = i
+				}
+				if ref(a) == dig {
+					di = i
+				}
+			}
+			hf := c.FnOf(core.CalleeFunc(info, call))
+			if si < 0 || di < 0 || hf == nil || hf.Decl.Body == nil {
+				continue
+			}
+			ps := hf.Obj.Type().(*types.Signature).Params()
+			if ps.Len() != len(call.Args) {
+				continue
+			}
+			hc := mkClassify(hf, ps.At(si), ps.At(di))
+			if v2, s2, nv2, ns2 := count(hf, hc); nv2+ns2 > 0 {
+				handOff, wf, classify, ver, sum, nver, nsum = call, hf, hc, v2, s2, nv2, ns2
 			}
 		}
-		return true
-	})
+	}
 	if nver != 1 || nsum != 1 {
 		c.Undecidedf("R5.trailer", key("layout"), fn.Decl.Pos(), "expected one 16-bit version write and one checksum write through the MultiWriter, found %d and %d", nver, nsum)
 		return nil
@@ -212,13 +260,28 @@ func trailer(e *env, fn, ctor *core.Fn) ast.Expr {
 	}
 	c.Check("R5.trailer", key("version-le16"), ver.call.Pos(), ver.order == "LittleEndian", "the trailer version must be written little-endian (found binary."+ver.order+"): Redis and the tool's own checkers read it as a different number and refuse the payload")
 	c.Check("R5.trailer", key("checksum-le64"), sum.call.Pos(), sum.order == "LittleEndian", "the trailer CRC must be written little-endian (found binary."+sum.order+"): the payload is refused by RESTORE and by the tool's own checkers")
-	sp, _ := g.Find(sum.call)
+	g := cfgq.Of(c.Program, wf)
+	cp, _ := g.Find(sum.call)  // the checksum write
+	sp, _ := g.Find(sum.sumAt) // where the digest is sampled
 	vp, _ := g.Find(ver.call)
-	dom, w1 := g.Dominated(sp, isKind("version"))
-	w2 := g.Reaches(sp, isKind("version", "data", "checksum"))
-	w3 := g.Reaches(vp, isKind("data", "version"))
-	c.Check("R5.trailer", key("layout"), sum.call.Pos(), dom && w2 == nil && w3 == nil,
-		"the payload must end in version(2) then CRC(8), the CRC being taken after the version went through the digest and nothing written after it: otherwise the checksum does not cover payload+version and RESTORE / verifyDump refuse it", append(append(w1, w2...), w3...)...)
+	dom, w1 := g.Dominated(sp, isKindOf(classify, "version"))
+	w2 := g.Reaches(cp, isKindOf(classify, "version", "data", "checksum"))
+	w3 := g.Reaches(vp, isKindOf(classify, "data", "version"))
+	var w4 []string
+	if sp.Node() != cp.Node() { // sampled into a local first: the checksum write must follow, nothing in between
+		if d2, w := g.Dominated(cp, func(n ast.Node) bool { return n == sp.Node() }); !d2 {
+			w4 = append(w4, w...)
+			dom = false
+		}
+	}
+	if handOff != nil { // nothing is written by the caller after the helper returns
+		gf := cfgq.Of(c.Program, fn)
+		if hp, ok := gf.Find(handOff); ok {
+			w4 = append(w4, gf.Reaches(hp, isKindOf(classifyFn, "version", "data", "checksum"))...)
+		}
+	}
+	c.Check("R5.trailer", key("layout"), sum.call.Pos(), dom && w2 == nil && w3 == nil && w4 == nil,
+		"the payload must end in version(2) then CRC(8), the CRC being taken after the version went through the digest and nothing written after it: otherwise the checksum does not cover payload+version and RESTORE / verifyDump refuse it", append(append(append(w1, w2...), w3...), w4...)...)
 	// nothing bypasses the digest
 	var bypass []string
 	core.Inspect(fn.Decl.Body, func(n ast.Node) bool {
@@ -232,7 +295,7 @@ func trailer(e *env, fn, ctor *core.Fn) ast.Expr {
 				bypass = append(bypass, c.Src(call))
 			}
 			for _, a := range call.Args {
-				if ref(a) == u && classify(call) == nil && !core.IsFunc(core.CalleeFunc(info, call), "io", "", "MultiWriter") {
+				if ref(a) == u && classifyFn(call) == nil && !core.IsFunc(core.CalleeFunc(info, call), "io", "", "MultiWriter") {
 					bypass = append(bypass, c.Src(call))
 				}
 			}
@@ -242,4 +305,77 @@ func trailer(e *env, fn, ctor *core.Fn) ast.Expr {
 	c.Check("R5.trailer", key("no-bypass"), fn.Decl.Pos(), len(bypass) == 0,
 		"every byte of the payload must pass through the MultiWriter so that the digest covers it; direct writes to the output: "+strings.Join(bypass, ", "))
 	return ver.val
+}
+
+// trailerByLayout decides the trailer obligations of createValueDump when it
+// does not write through a MultiWriter (say append + PutUint16/PutUint64 and an
+// explicit digest.Write): c01.DumpLayout interprets the body over its byte
+// sinks and reports the token sequence returned and the one the digest had
+// received when the checksum was taken.
+func trailerByLayout(e *env, fn *core.Fn, key func(string) string) (ast.Expr, bool) {
+	c := e.c
+	lf, layout, cover, fresh, und := c01.DumpLayout(c)
+	if lf == nil || lf.Obj != fn.Obj || len(und) > 0 || layout == "" {
+		return nil, false
+	}
+	info := fn.Pkg.TypesInfo
+	toks := strings.Fields(layout)
+	has := func(t string) bool {
+		for _, x := range toks {
+			if x == t {
+				return true
+			}
+		}
+		return false
+	}
+	pos := fn.Decl.Pos()
+	if fresh {
+		c.Okf("R5.trailer", key("tee-digest"), pos, "the checksum comes from a fresh digest fed explicitly; returned bytes: %s", layout)
+	} else {
+		c.Undecidedf("R5.trailer", key("tee-digest"), pos, "the digest used for the trailer is not a fresh digest.New()")
+	}
+	switch {
+	case has("Version16LE"):
+		c.Okf("R5.trailer", key("version-le16"), pos, "the trailer version is written as 16 bits little-endian")
+	case has("Version16BE"):
+		c.Check("R5.trailer", key("version-le16"), pos, false, "the trailer version must be written little-endian (layout "+layout+"): Redis and the tool's own checkers read it as a different number and refuse the payload")
+	default:
+		c.Undecidedf("R5.trailer", key("version-le16"), pos, "no 16-bit version in the returned bytes (%s)", layout)
+	}
+	switch {
+	case has("Crc64LE"):
+		c.Okf("R5.trailer", key("checksum-le64"), pos, "the trailer CRC is written as 64 bits little-endian")
+	case has("Crc64BE"):
+		c.Check("R5.trailer", key("checksum-le64"), pos, false, "the trailer CRC must be written little-endian (layout "+layout+"): the payload is refused by RESTORE and by the tool's own checkers")
+	default:
+		c.Undecidedf("R5.trailer", key("checksum-le64"), pos, "no 64-bit checksum in the returned bytes (%s)", layout)
+	}
+	n := len(toks)
+	if n >= 2 && strings.HasPrefix(toks[n-1], "Crc64") && strings.HasPrefix(toks[n-2], "Version16") {
+		c.Okf("R5.trailer", key("layout"), pos, "the payload ends in version(2) then CRC(8): %s", layout)
+		c.Check("R5.trailer", key("no-bypass"), pos, cover == strings.Join(toks[:n-1], " "),
+			fmt.Sprintf("the checksum must cover exactly what precedes it in the payload (%s); the digest had received: %s", strings.Join(toks[:n-1], " "), cover))
+	} else if has("Crc64LE") && has("Version16LE") {
+		c.Check("R5.trailer", key("layout"), pos, false, "the payload must end in version(2) then CRC(8), nothing after it; the returned bytes are: "+layout+": RESTORE / verifyDump refuse it")
+		c.Undecidedf("R5.trailer", key("no-bypass"), pos, "not judged: the trailer layout is wrong")
+	} else {
+		c.Undecidedf("R5.trailer", key("layout"), pos, "unrecognised payload layout %s", layout)
+		c.Undecidedf("R5.trailer", key("no-bypass"), pos, "not judged")
+	}
+	// the version written: the only 16-bit conversion in the function
+	var ver ast.Expr
+	nconv := 0
+	ast.Inspect(fn.Decl.Body, func(m ast.Node) bool {
+		if call, ok := m.(*ast.CallExpr); ok && len(call.Args) == 1 {
+			if tv, isT := info.Types[call.Fun]; isT && tv.IsType() && width(info, call) == 16 {
+				ver = call
+				nconv++
+			}
+		}
+		return true
+	})
+	if nconv != 1 {
+		return nil, true
+	}
+	return ver, true
 }
